@@ -1,9 +1,9 @@
 package drivers
 
 import (
-	"math/big"
 	"encoding/json"
 	"fmt"
+	"math/big"
 	"os"
 	"strconv"
 	"time"
